@@ -146,8 +146,8 @@ def main():
              "kind_free_text": "design-level TLA+ models of the limb algorithms with the limb width as a constant (Knuth, MG10, Div, Redc, LimbShift, AddMul, InvRing, Lehmer, Pow, Root, Log, BaseConv, Fmt, Float), model-checked exhaustively by ./check --setup; they never change a check's exit code"},
             {"name": "tlc-mc", "path": "spec/MC_BigNat.tla", "serves_properties": sorted(CHECKS),
              "kind_free_text": "TLC model checking of the specification's own arithmetic against native integers"},
-            {"name": "tlc-mc-oracles", "path": "spec/MC_Codecs.tla", "serves_properties": ["C09", "C16", "C17"],
-             "kind_free_text": "TLC model checking of the oracles' self-consistency, no implementation in the loop: spec/MC_Codecs.tla (every encoder against its denotation for all values of small widths; generative against analytic acceptance for all short byte strings) and spec/MC_Text.tla (formatter output against the parser contracts and native digits); run by ./check --setup"},
+            {"name": "tlc-mc-oracles", "path": "spec/MC_Codecs.tla", "serves_properties": ["C09", "C16", "C17", "C18"],
+             "kind_free_text": "TLC model checking of the oracles' self-consistency, no implementation in the loop: spec/MC_Codecs.tla (every encoder against its denotation for all values of small widths; generative against analytic acceptance for all short byte strings) spec/MC_Text.tla (formatter output against the parser contracts and native digits) and spec/MC_Float.tla (the float definitions instantiated with tiny formats: every bit pattern against every integer, formulas against characterising inequalities on native integers); run by ./check --setup"},
         ],
         "checks": checks,
         "not_applicable": [{"property_id": k, "reason": v} for k, v in sorted(PENDING.items()) if k not in CHECKS],
